@@ -52,7 +52,7 @@ def _simulate(cfg):
             if r <= 0:
                 return out
             t = random.expovariate(r)
-            while t < duration:
+            while t < duration and t < cfg['tmax'] - cfg['tmin']:
                 out.append(t)
                 t += random.expovariate(r)
             return out
